@@ -370,17 +370,24 @@ def model_key(A, keyval):
     return None
 
 
-def run_c03(fes, spec, pk, sh, stats, ntrail):
+def run_c03(fes, spec, pk, sh, stats, ntrail, cks_registered=True):
     """pairwise agreement without the reference in the loop"""
+    if cks_registered and has_checksum(spec, pk):
+        # a checksum field behaves in two ways (algorithm registered / not registered): the languages must agree in both
+        extra = run_c03(fes, spec, pk, sh, stats, ntrail, cks_registered=False)
+        for f in extra:
+            f.symptom = 'unregistered:' + f.symptom
+    else:
+        extra = []
     res = []
     asm = []
     msg = build_msg(spec, pk, sh, pk.name, asm)
-    rctx = RefCtx(spec)
+    rctx = RefCtx(spec, cks_registered=cks_registered)
     want = ref_enc(rctx, pk, msg)      # used only to name the declared field a difference falls into
     encs = {}
     for lang, fe in fes.items():
         try:
-            paths = list(PathCtl(asm).explore(lambda c: fe.encode(c, pk, msg)[0]))
+            paths = list(PathCtl(asm).explore(lambda c: fe.encode(c, pk, msg, cks_registered)[0]))
         except (Unsupported, MissingMember):
             continue
         if len(paths) != 1 or isinstance(paths[0][0], Outcome):
@@ -439,7 +446,7 @@ def run_c03(fes, spec, pk, sh, stats, ntrail):
                 continue
 
             def run(c):
-                o, r = fe.decode(c, pk, data)
+                o, r = fe.decode(c, pk, data, cks_registered)
                 return r, fe.to_logical(pk, o)
             try:
                 paths = list(PathCtl(asm, max_paths=32).explore(run))
@@ -474,7 +481,7 @@ def run_c03(fes, spec, pk, sh, stats, ntrail):
                     for s_ in src:
                         res.append(Finding('C03', '%s>%s' % (s_, lang), spec.name, pk.name, sh.ident(), 'packet', '*', 'decode:position%+d' % (ridx - len(enc)),
                                            detail='decoder consumed %d of %d bytes' % (ridx, len(enc)), cex=first_model(A, msg)))
-    return res
+    return res + extra
 
 
 def run_c07_influence(fe, spec, pk, sh, stats):
@@ -1368,7 +1375,9 @@ def main(prop, tier, update_known=False):
             bysig.setdefault(s, []).append({'property': prop, 'lang': 'protoc', 'program': lst[0][0], 'packet': '-', 'shape': None, 'signature': s, 'sig': s, 'cex': None,
                                             'detail': 'compiling into directories that hold older files of the same names and sizes does not leave the generated code there (%d programs, e.g. %s: %s)' % (
                                                 len(lst), lst[0][0], lst[0][1][:3])})
-    if prop in ('C04', 'C05', 'C06'):
+    if prop in ('C01', 'C02', 'C03', 'C04', 'C05', 'C06'):
+        # (first only the families built around one construct did this; a change that breaks the emitted code of one language makes
+        # its cells vanish from every property, so every wire property reports it)
         # the programs of these families are built around the property's construct: when a target compiler rejects the code emitted
         # for one of them, or the emitted type lacks the member, there is no encoder/decoder for which the property could hold
         for (lang, e), ps in rejects.items():
@@ -1380,6 +1389,35 @@ def main(prop, tier, update_known=False):
             s = '%s|%s|%s|%s|members|missing-member' % (prop, lang, pn, pkn)
             bysig.setdefault(s, []).append({'property': prop, 'lang': lang, 'program': pn, 'packet': pkn, 'shape': None, 'signature': s,
                                             'detail': 'no codec to check: ' + m, 'cex': None, 'sig': s})
+    if prop == 'C07':
+        # "a construct a target cannot express is reported as a compile-time diagnostic": when a requested target refuses a program
+        # (here: one without a root packet), the command fails, whichever other targets are requested with it
+        import shutil, tempfile
+        binary = build.build_binary()
+        d = tempfile.mkdtemp(prefix='zzc07_', dir=build.cache_dir())
+        try:
+            dsl = os.path.join(d, 'a.dsl')
+            open(dsl, 'w').write('options {\n    GoPackage = "msg";\n    GoModule = "example.com/msg";\n    JavaPackage = "com.x";\n}\n\npacket Ping {\n    u32 Seq,\n    string Note,\n}\n\npacket Pong {\n    Ping p,\n}\n')
+            flags = dict((lang, flag) for lang, flag in build.LANG_FLAGS)
+
+            def run(langs):
+                out = os.path.join(d, 'o_' + '_'.join(langs))
+                args = [binary, '-f', dsl]
+                for l in langs:
+                    args += [flags[l], os.path.join(out, l)]
+                return subprocess.run(args, capture_output=True, text=True, timeout=60).returncode
+            alone = {l: run([l]) for l in flags}
+            refusing = [l for l in alone if alone[l] != 0]
+            accepting = [l for l in alone if alone[l] == 0]
+            for r_ in refusing:
+                for a_ in accepting:
+                    for combo in ([r_, a_], [a_, r_]):
+                        if run(combo) == 0:
+                            s = 'C07|protoc|rootless|-|exit-status|%s' % '+'.join(combo)
+                            bysig.setdefault(s, []).append({'property': 'C07', 'lang': 'protoc', 'program': 'rootless', 'packet': '-', 'shape': None, 'signature': s, 'sig': s, 'cex': None,
+                                                            'detail': 'target %s refuses a program without a root packet (exit %d alone), but requested together with %s the command exits 0' % (r_, alone[r_], a_)})
+        finally:
+            shutil.rmtree(d, ignore_errors=True)
     violations = []
     knowns = []
     for s, fs in bysig.items():
